@@ -6,6 +6,8 @@ mod c18;
 mod f32ops;
 mod treegen;
 mod c03;
+mod hist;
+mod c01;
 
 fn main() {
     let args: Vec<String> = std::env::args().collect();
@@ -18,6 +20,7 @@ fn main() {
         "c18" => c18::main(rest),
         "f32" => f32ops::main(rest),
         "c03" => c03::main(rest),
+        "c01" => c01::main(rest),
         other => {
             eprintln!("unknown property {other}");
             std::process::exit(2);
